@@ -12,6 +12,8 @@ require (
 	github.com/rs/cors v1.11.1
 	github.com/zitadel/logging v0.6.2
 	github.com/zitadel/oidc/v3 v3.0.0
+	go.opentelemetry.io/otel v1.29.0
+	go.opentelemetry.io/otel/trace v1.29.0
 	golang.org/x/net v0.36.0
 	golang.org/x/oauth2 v0.29.0
 	golang.org/x/text v0.24.0
@@ -26,9 +28,7 @@ require (
 	github.com/muhlemmer/httpforwarded v0.1.0 // indirect
 	github.com/sirupsen/logrus v1.9.3 // indirect
 	github.com/zitadel/schema v1.3.1 // indirect
-	go.opentelemetry.io/otel v1.29.0 // indirect
 	go.opentelemetry.io/otel/metric v1.29.0 // indirect
-	go.opentelemetry.io/otel/trace v1.29.0 // indirect
 	golang.org/x/crypto v0.35.0 // indirect
 	golang.org/x/sys v0.30.0 // indirect
 )
